@@ -185,6 +185,9 @@ def run_loop(cell, outcomes, steps, kill_req=0):
     elif handlers == 'one_create':
         w.add_handler(kopf.on.create, 'ha')
         ids = ['ha']
+    elif handlers == 'subhandlers':
+        w.add_parent_handler(kopf.on.create, 'ha', ['a', 'b'])
+        ids = ['ha', 'ha/a']          # outcome scripts: the parent's and the first sub-handler's
     else:
         raise ValueError(handlers)
     w.outcomes = {hid: list(outs) for hid, outs in zip(ids, outcomes)}
@@ -220,7 +223,7 @@ def run_loop(cell, outcomes, steps, kill_req=0):
 
 def h_loop(o0: int, o1: int, o2: int, p0: int, p1: int, s0: int, s1: int, s2: int, kill_req: int) -> bool:
     """
-    pre: 0 <= o0 <= 3 and 0 <= o1 <= 3 and 0 <= o2 <= 3 and 0 <= p0 <= 3 and 0 <= p1 <= 3
+    pre: 0 <= o0 <= 4 and 0 <= o1 <= 4 and 0 <= o2 <= 4 and 0 <= p0 <= 3 and 0 <= p1 <= 3
     pre: 0 <= s0 <= 4 and 0 <= s1 <= 4 and 0 <= s2 <= 4 and 0 <= kill_req <= 1
     post: _ == True
     """
@@ -230,6 +233,8 @@ def h_loop(o0: int, o1: int, o2: int, p0: int, p1: int, s0: int, s1: int, s2: in
     o0 = vkopf.pin('o0', o0)
     n = c.get('n', 3)
     steps = [s0, s1, s2][:n]
+    if c.get('handlers') != 'subhandlers' and 4 in (o0, o1, o2):
+        return True
     try:
         w, ids = run_loop(c, [[o0, o1, o2], [p0, p1]], steps, kill_req)
     except (Deadlock, Diverged, Livelock):
@@ -250,16 +255,24 @@ def h_loop(o0: int, o1: int, o2: int, p0: int, p1: int, s0: int, s1: int, s2: in
     if final is not None:
         lhc = read_lhc(final, storage)
         finished = {}
-        for hid in ids:
-            finals = [i for i in w.invocations if i['id'] == hid and i['outcome'] in (0, 2)]
-            finished[hid] = bool(finals)
+        top = [hid for hid in ids if '/' not in hid]
+        for hid in top:
+            finals = [i for i in w.invocations if i['id'] == hid and i['outcome'] in (0, 2, 4)]
+            if c.get('handlers') == 'subhandlers':
+                # the parent is finished when it gave up (4/2) or when it and all its sub-handlers have final outcomes
+                gave_up = any(i['id'] == hid and i['outcome'] in (2, 4) for i in w.invocations)
+                subs_done = all(any(i['id'] == f'{hid}/{x}' and i['outcome'] in (0, 2) for i in w.invocations) for x in ('a', 'b'))
+                ok_parent = any(i['id'] == hid and i['outcome'] == 0 for i in w.invocations)
+                finished[hid] = gave_up or (ok_parent and subs_done)
+            else:
+                finished[hid] = bool(finals)
         # walk the server log: the last-handled state may only appear in a write after which no progress remains,
         # and only once all handlers have a final outcome behind them
         for rv, snap in w.server.log:
             if read_lhc(snap, storage) is not None:
                 if progress_keys(snap, storage):
                     ok = False
-                done_by_then = all(any(i['id'] == hid and i['outcome'] in (0, 2) for i in w.invocations) for hid in ids)
+                done_by_then = all(finished.values())
                 if not done_by_then:
                     ok = False
         if all(finished.values()):
@@ -268,7 +281,8 @@ def h_loop(o0: int, o1: int, o2: int, p0: int, p1: int, s0: int, s1: int, s2: in
                 ok = False          # ... and it IS closed then (within the bounded settle)
     # absent kills (lost responses), each handler succeeds at most once per cycle
     if not kills:
-        for hid in ids:
+        once = ['ha/a', 'ha/b'] if c.get('handlers') == 'subhandlers' else ids    # a parent's body is re-entered
+        for hid in once:                                                            # until its children are done
             if len([i for i in w.invocations if i['id'] == hid and i['outcome'] == 0]) > 1:
                 ok = False
     else:
@@ -278,17 +292,38 @@ def h_loop(o0: int, o1: int, o2: int, p0: int, p1: int, s0: int, s1: int, s2: in
 
 def obligations():
     obs = []
+    K = [0, 1, 2, 3]
     for storage in ('smart', 'status', 'annotations'):
         for lifecycle in ('all_at_once', 'one_by_one', 'asap'):
-            q = (storage, lifecycle) in (('smart', 'all_at_once'), ('status', 'one_by_one'))
-            obs += split(Ob('h_step', {'storage': storage, 'lifecycle': lifecycle}, tiers=('quick', 'thorough') if q else ('thorough',),
-                            timeout=1500, path_timeout=200, twins=['invoked', 'closed'] if q else []), ka=[0, 1, 2, 3], kb=[0, 1, 2, 3])
+            obs += split(Ob('h_step', {'storage': storage, 'lifecycle': lifecycle}, tiers=('thorough',), timeout=1500, path_timeout=200),
+                         ka=K, kb=K)
+    # quick: a sample of the stored-state cells (the rest is in the thorough tier)
+    for (ka, kb) in ((0, 1), (1, 1), (1, 2), (2, 3)):
+        obs.append(Ob('h_step', {'storage': 'smart', 'lifecycle': 'all_at_once', 'pin': {'ka': ka, 'kb': kb}}, tiers=('quick',),
+                      timeout=900, path_timeout=200))
+    for (ka, kb) in ((1, 0), (0, 2)):
+        obs.append(Ob('h_step', {'storage': 'status', 'lifecycle': 'one_by_one', 'pin': {'ka': ka, 'kb': kb}}, tiers=('quick',),
+                      timeout=900, path_timeout=200))
+    obs.append(Ob('h_step', {'storage': 'smart', 'lifecycle': 'all_at_once'}, tiers=('quick', 'thorough'), timeout=600, twins=['invoked', 'closed'], main=False))
     # closed loop
+    for (s0, o0) in ((0, 1), (3, 0), (1, 3), (2, 1), (4, 0)):
+        obs.append(Ob('h_loop', {'storage': 'smart', 'lifecycle': 'all_at_once', 'handlers': 'one_create', 'n': 2, 'pin': {'s0': s0, 'o0': o0}},
+                      tiers=('quick',), timeout=900, path_timeout=300))
+    obs.append(Ob('h_loop', {'storage': 'smart', 'lifecycle': 'all_at_once', 'handlers': 'one_create', 'n': 2}, tiers=('quick', 'thorough'),
+                  timeout=600, twins=['all_finished', 'killed'], main=False))
+    for o0 in (0, 4):
+        obs.append(Ob('h_loop', {'storage': 'smart', 'lifecycle': 'all_at_once', 'handlers': 'subhandlers', 'n': 1, 'pin': {'o0': o0}},
+                      tiers=('quick',), timeout=900, path_timeout=300))
+    S, O = [0, 1, 2, 3, 4], [0, 1, 2, 3]
     obs += split(Ob('h_loop', {'storage': 'smart', 'lifecycle': 'all_at_once', 'handlers': 'one_create', 'n': 2},
-                    timeout=1800, path_timeout=300, twins=['all_finished', 'killed']), s0=[0, 1, 2, 3, 4], o0=[0, 1, 2, 3])
+                    tiers=('thorough',), timeout=1800, path_timeout=300), s0=S, o0=O)
     for storage, lifecycle in (('status', 'one_by_one'), ('annotations', 'asap'), ('smart', 'one_by_one')):
         obs += split(Ob('h_loop', {'storage': storage, 'lifecycle': lifecycle, 'handlers': 'two_create', 'n': 2},
-                        tiers=('thorough',), timeout=3000, path_timeout=300), s0=[0, 1, 2, 3, 4], s1=[0, 1, 2, 3, 4], o0=[0, 1, 2, 3])
+                        tiers=('thorough',), timeout=3000, path_timeout=300), s0=S, s1=S, o0=O)
+    obs += split(Ob('h_loop', {'storage': 'smart', 'lifecycle': 'all_at_once', 'handlers': 'subhandlers', 'n': 1},
+                    tiers=('thorough',), timeout=1800, path_timeout=300), o0=[0, 1, 2, 3, 4])
+    obs += split(Ob('h_loop', {'storage': 'status', 'lifecycle': 'one_by_one', 'handlers': 'subhandlers', 'n': 2},
+                    tiers=('thorough',), timeout=3000, path_timeout=300), s0=S, o0=[0, 1, 2, 3, 4])
     obs += split(Ob('h_loop', {'storage': 'smart', 'lifecycle': 'all_at_once', 'handlers': 'one_create', 'n': 3},
-                    tiers=('thorough',), timeout=3000, path_timeout=300), s0=[0, 1, 2, 3, 4], s1=[0, 1, 2, 3, 4], o0=[0, 1, 2, 3])
+                    tiers=('thorough',), timeout=3000, path_timeout=300), s0=S, s1=S, o0=O)
     return obs
